@@ -397,6 +397,11 @@ func (vm *VM) sprintf(format Value, args []Value) Value {
 				return format
 			}
 		}
+		if o, isO := format.(*Opaque); isO && o.Blob != nil {
+			// the text is used as a format: directives in it (a '%' in a string of the value) would be
+			// interpreted, so the output is only known to be "something derived from that JSON"
+			return &Opaque{What: "JSON text of a value passed through a format"}
+		}
 		vmErr("Sprintf with symbolic format")
 	}
 	var atoms []Atom
